@@ -16,7 +16,7 @@
    fix_ok       : side condition of the weak (fixpoint) form, see C01_union_fixpoint. *)
 From Coq Require Import List Arith Bool PeanoNat.
 Import ListNotations.
-Require Import TL.Model.Core.
+Require Import TL.Model.Core TL.Model.CoreTables.
 
 Fixpoint forallb2 {A B} (p : A -> B -> bool) (a : list A) (b : list B) : bool :=
   match a, b with
@@ -50,6 +50,9 @@ Definition class_fields (c : nat) (cd : classdef) (v : pv) : option (list (nat *
   | FTypedDict, PDict KDict kvs => td_fields kvs
   | _, _ => None
   end.
+
+Fixpoint exists_split {A} (p : list A -> A -> bool) (pre ts : list A) : bool :=
+  match ts with [] => false | t :: r => p pre t || exists_split p (pre ++ [t]) r end.
 
 Definition res_is_reject {A} (sup : exn -> bool) (r : res A) : bool :=
   match r with Raise e => sup e | _ => false end.
@@ -195,6 +198,45 @@ Fixpoint union_unamb (fuel : nat) (t : ty) (v : pv) {struct fuel} : bool :=
     end
   end.
 
+(* "Unambiguous" read literally from the statement: v is a valid instance of some member whose OWN wire
+   form no earlier member's unmarshaller accepts.  It says nothing about which member's MARSHALLER
+   answers first; C01_full with this reading is refuted (C01_refuted_union_foreign_marshaller). *)
+Fixpoint stmt_unamb (fuel : nat) (t : ty) (v : pv) {struct fuel} : bool :=
+  match fuel with
+  | 0 => false
+  | S n =>
+    match t with
+    | TLeaf _ | TRefLeaf _ | TNone => true
+    | TSeq _ a => match v with PSeq _ l => forallb (stmt_unamb n a) l | _ => true end
+    | TMap _ kt vt =>
+        match v with
+        | PDict _ kvs => forallb (fun kv => stmt_unamb n kt (fst kv) && stmt_unamb n vt (snd kv)) kvs
+        | _ => true
+        end
+    | TTuple ts => match v with PSeq _ l => forallb2 (stmt_unamb n) ts l | _ => true end
+    | TUnion ts =>
+        if isoptional ts && is_none_val rt v then true
+        else exists_split (fun pre t' =>
+               valid n t' v && stmt_unamb n t' v &&
+               match mar rt E n t' v with
+               | Ok w => forallb (fun u => res_is_reject (suppressed rt) (unm rt E n u w)) (stack_before ts pre)
+               | _ => false
+               end) [] ts
+    | TName c | TRef c | TAliasStr _ c =>
+        match E c with
+        | None => true
+        | Some (NType t') => stmt_unamb n t' v
+        | Some (NClass cd) =>
+            match class_fields c cd v with
+            | Some fs => forallb (fun fv => match field_ty cd (fst fv) with
+                                            | Some ft => stmt_unamb n ft (snd fv) | None => true end) fs
+            | None => true
+            end
+        end
+    | TNewType _ t' | TAlias _ t' | TFinal t' | TClassVar t' | TRefTo t' => stmt_unamb n t' v
+    end
+  end.
+
 (* a mapping key type that is a leaf behind transparent wrappers *)
 Fixpoint key_leaf (fuel : nat) (t : ty) {struct fuel} : option nat :=
   match fuel with
@@ -224,3 +266,52 @@ Definition leaf_m_inj (rt : runtime) (lv : nat -> pv -> bool) : Prop :=
   forall s v1 v2 w1 w2, lv s v1 = true -> lv s v2 = true ->
     leaf_m rt s v1 = Ok w1 -> leaf_m rt s v2 = Ok w2 ->
     pv_pyeq rt w1 w2 = true -> pv_pyeq rt v1 v2 = true.
+
+(* ------------------------------------------------------------------ a toy runtime (non-vacuity, witnesses)
+   atoms: 0 None, 1 int 5, 2 str "5", 3 PurePath("5"), 4 str "a", 5 int 7, 6 date(2020,1,1),
+          7 str "2020-01-01T00:00:00", 8 str "2020-01-01"
+   leaves: 0 PurePath (marshaller str(), unmarshaller rejects int), 1 int, 2 str, 3 date *)
+Definition toy_all_exn : list exn :=
+  [EValue; EType; ESyntax; EAttribute; EKey; EArith; EStopIter; EUnicode; ERecursion; EOther].
+Definition toy_rt : runtime := mk_runtime
+  (* leaf_u *)
+  [ (0, PAtom 2, Ok (PAtom 3)); (0, PAtom 1, Raise EType); (0, PAtom 3, Ok (PAtom 3));
+    (1, PAtom 1, Ok (PAtom 1)); (1, PAtom 2, Ok (PAtom 1)); (1, PAtom 5, Ok (PAtom 5)); (1, PAtom 4, Raise EValue);
+    (2, PAtom 4, Ok (PAtom 4)); (2, PAtom 2, Ok (PAtom 2)); (2, PAtom 1, Ok (PAtom 2));
+    (2, PAtom 7, Ok (PAtom 7)); (2, PAtom 8, Ok (PAtom 8));
+    (3, PAtom 7, Ok (PAtom 6)); (3, PAtom 8, Ok (PAtom 6)); (3, PAtom 4, Raise EValue) ]
+  (* leaf_m *)
+  [ (0, PAtom 3, Ok (PAtom 2)); (0, PAtom 1, Ok (PAtom 2)); (0, PAtom 4, Ok (PAtom 4));
+    (1, PAtom 1, Ok (PAtom 1)); (1, PAtom 5, Ok (PAtom 5)); (1, PAtom 3, Raise EType); (1, PAtom 4, Raise EValue);
+    (1, PAtom 2, Ok (PAtom 1));
+    (2, PAtom 4, Ok (PAtom 4)); (2, PAtom 2, Ok (PAtom 2)); (2, PAtom 7, Ok (PAtom 7)); (2, PAtom 8, Ok (PAtom 8));
+    (3, PAtom 6, Ok (PAtom 8)); (3, PAtom 7, Raise EAttribute); (3, PAtom 4, Raise EAttribute) ]
+  (* none_u *)
+  [ (PAtom 0, Ok (PAtom 0)); (PAtom 1, Raise EValue); (PAtom 2, Raise EValue); (PAtom 4, Raise EValue);
+    (PAtom 5, Raise EValue) ]
+  [] [] [] [] [] [] [] (PAtom 0) toy_all_exn.
+Definition toy_lv (s : nat) (v : pv) : bool :=
+  match v with
+  | PAtom a => existsb (fun p => Nat.eqb s (fst p) && Nat.eqb a (snd p))
+                       [(0, 3); (1, 1); (1, 5); (2, 4); (2, 2); (2, 7); (2, 8); (3, 6)]
+  | _ => false
+  end.
+(* class 0: dataclass(f0: list[int], f1: Optional[str]); class 1: NamedTuple(f0: dict[str, int]);
+   class 2: TypedDict(f0: tuple[int, str], f1: set[int]) *)
+Definition toy_env : env := fun c =>
+  match c with
+  | 0 => Some (NClass {| cflavour := FDataclass;
+                         cfields := [ {| fname := 0; fty := TSeq KList (TLeaf 1); fdefault := None |};
+                                      {| fname := 1; fty := TUnion [TLeaf 2; TNone]; fdefault := Some (PAtom 0) |} ] |})
+  | 1 => Some (NClass {| cflavour := FNamedTuple;
+                         cfields := [ {| fname := 0; fty := TMap KDict (TLeaf 2) (TLeaf 1); fdefault := None |} ] |})
+  | 2 => Some (NClass {| cflavour := FTypedDict;
+                         cfields := [ {| fname := 0; fty := TTuple [TLeaf 1; TLeaf 2]; fdefault := None |};
+                                      {| fname := 1; fty := TSeq KSet (TNewType 0 (TLeaf 1)); fdefault := None |} ] |})
+  | 3 => Some (NType (TTuple [TName 0; TRef 1; TAlias 1 (TName 2)]))
+  | _ => None
+  end.
+Definition toy_value : pv :=
+  PSeq KTuple [ PObj 0 [(0, PSeq KList [PAtom 1; PAtom 5; PAtom 1]); (1, PAtom 4)];
+                PNamed 1 [PDict KDict [(PAtom 4, PAtom 5); (PAtom 2, PAtom 1)]];
+                PDict KDict [(PKey 1, PSeq KSet [PAtom 5; PAtom 1]); (PKey 0, PSeq KTuple [PAtom 1; PAtom 2])] ].
